@@ -252,11 +252,34 @@ func c19Scenario(c *Ctx, i int, r *Rng) {
 	pre := Pick(r, []string{"", "", "# a comment\n*.txt text\n", "*.old filter=lfs diff=lfs merge=lfs -text\nother.bin -text\n", "[attr]mybin -text -diff\n*.raw mybin\n", "*.txt text\r\n*.old filter=lfs -text\r\n",
 		// files whose last line is not terminated (hand-edited, printf): an appended entry must not be glued to it
 		"*.txt text\n*.old filter=lfs -text", "*.old filter=lfs -text\n# trailing comment", "*.old filter=lfs -text\r\n*.txt text", "other.bin -text\n*.old filter=lfs"})
+	nestedMacro := ""
+	if r.Chance(6) {
+		// a macro DEFINED in a .gitattributes that is not the top-level one: Git refuses such a definition
+		// ("[attr]… not allowed"), so a line using the name assigns no filter — the pattern is NOT tracked yet
+		filename = false
+		arg = Pick(r, []string{"*.dat", "*.[ch]", "img/*.png", "file#1.dat"})
+		nestedMacro = Pick(r, []string{"same-file", "used-above"})
+		macro := "[attr]lfsm filter=lfs diff=lfs merge=lfs -text\n"
+		if nestedMacro == "same-file" {
+			sub = "sub"
+			os.MkdirAll(filepath.Join(dir, sub), 0o755)
+			pre = macro + arg + " lfsm\n"
+		} else {
+			sub = ""
+			os.MkdirAll(filepath.Join(dir, "assets"), 0o755)
+			os.WriteFile(filepath.Join(dir, "assets", ".gitattributes"), []byte(macro), 0o644)
+			pre = arg + " lfsm\n"
+		}
+		c.R.Count("track.nested-macro." + nestedMacro)
+	}
 	wd := filepath.Join(dir, sub)
 	if pre != "" {
 		os.WriteFile(filepath.Join(wd, ".gitattributes"), []byte(pre), 0o644)
 	}
 	enc := fmt.Sprintf("C19 scen filename=%v sub=%s arg=%s pre=%s", filename, orDash(sub), hx([]byte(arg)), hx([]byte(pre)))
+	if nestedMacro != "" {
+		enc += " nested-macro=" + nestedMacro
+	}
 	c.R.Eval(enc, strings.ContainsAny(arg, " #*?[]\\!\"\t"))
 	rel := func(p string) string {
 		if sub == "" {
@@ -456,10 +479,21 @@ func c19Sequence(c *Ctx, i int, r *Rng) {
 	var order []string
 	var steps []string
 	n := 2 + r.Intn(4)
+	// directed: a lockable pattern tracked again WITHOUT a lock flag keeps its lockable attribute
+	// ("leave lockable as-is"), whichever spelling the pattern has
+	relock := ""
+	if r.Chance(20) {
+		relock = Pick(r, pats)
+	}
 	for k := 0; k < n; k++ {
 		p := Pick(r, pats)
 		var args []string
-		switch r.Intn(6) {
+		op := r.Intn(6)
+		if relock != "" && k < 2 {
+			p = relock
+			op = []int{1, 5}[k]
+		}
+		switch op {
 		case 0:
 			args = []string{"untrack", p}
 			if _, ok := active[p]; ok {
